@@ -5,6 +5,8 @@ package tmmirror
 
 import (
 	"context"
+	"runtime"
+	"time"
 
 	"github.com/gordian-engine/gordian/gcrypto"
 	"github.com/gordian-engine/gordian/gwatchdog"
@@ -348,3 +350,83 @@ func vhValidSigs(keys []gcrypto.PubKey, content []byte, signers int, tag byte) [
 	return sigs
 }
 
+
+// tryRecvGossip / tryRecvSM: a receive that does not wait for ever. Under the symbolic executor
+// the kernel goroutine is parked in its select whenever the harness runs, so a non-blocking
+// receive is exact; natively a short wait gives the kernel goroutine time to get there.
+func (e *vhM) tryRecvGossip() (tmelink.NetworkViewUpdate, bool) {
+	if verifrt.Symbolic() {
+		runtime.Gosched() // let the kernel goroutine reach its select
+		select {
+		case u := <-e.gossipOut:
+			return u, true
+		default:
+			return tmelink.NetworkViewUpdate{}, false
+		}
+	}
+	select {
+	case u := <-e.gossipOut:
+		return u, true
+	case <-time.After(150 * time.Millisecond):
+		return tmelink.NetworkViewUpdate{}, false
+	}
+}
+
+func (e *vhM) tryRecvSM() (tmeil.StateMachineRoundView, bool) {
+	if verifrt.Symbolic() {
+		runtime.Gosched()
+		select {
+		case u := <-e.smOut:
+			return u, true
+		default:
+			return tmeil.StateMachineRoundView{}, false
+		}
+	}
+	select {
+	case u := <-e.smOut:
+		return u, true
+	case <-time.After(150 * time.Millisecond):
+		return tmeil.StateMachineRoundView{}, false
+	}
+}
+
+
+// verifyPrevCommitProof: the previous-commit proof a view carries verifies, under the given
+// keys, as precommits for (height-1, proof round, hash).
+func (e *vhM) verifyPrevCommitProof(tag string, v *tmconsensus.VersionedRoundView, keys []gcrypto.PubKey) {
+	if v.Height <= e.initialHeight {
+		return
+	}
+	for hash, sigs := range v.PrevCommitProof.Proofs {
+		content := vkit.PrecommitContent(v.Height-1, v.PrevCommitProof.Round, hash)
+		for _, sg := range sigs {
+			okID := len(sg.KeyID) == 2 && int(sg.KeyID[0])<<8|int(sg.KeyID[1]) < len(keys)
+			verifrt.Assert(okID, tag+":prev-commit-signature-key-id-is-a-member")
+			if !okID {
+				continue
+			}
+			id := int(sg.KeyID[0])<<8 | int(sg.KeyID[1])
+			verifrt.Assert(keys[id].Verify(content, sg.Sig), tag+":prev-commit-signature-verifies-for-its-target")
+		}
+	}
+}
+
+// verifyGossip drains everything offered to the gossip strategy and re-verifies every vote
+// signature and previous-commit proof in every view of every update.
+func (e *vhM) verifyGossip(tag string) int {
+	n := 0
+	for i := 0; i < 64; i++ {
+		u, ok := e.tryRecvGossip()
+		if !ok {
+			return n
+		}
+		n++
+		for _, v := range []*tmconsensus.VersionedRoundView{u.Committing, u.Voting, u.NextRound, u.NilVotedRound} {
+			if v != nil {
+				e.verifyViewSignatures(tag+":gossip", v)
+				e.verifyPrevCommitProof(tag+":gossip", v, e.keys)
+			}
+		}
+	}
+	return n
+}
